@@ -206,6 +206,28 @@ def regression_scenarios(ctx, controlled, tag):
 # running scenario lines (a crash / deadlock verdict ends the process: blame the first unanswered line, continue)
 # ---------------------------------------------------------------------------------------------------------------------
 
+def fallback_scenarios(ctx, tag):
+    """Thorough tier only: Blocks of 20 MiB of incompressible data make the LZMA2 encoder fill the whole output buffer, which is
+    the only way to reach the incompressible fallback of worker_encode() (wait for the whole input, lzma_block_uncomp_encode)."""
+    rng = ctx.rng
+    bs = 20 * 1024 * 1024
+    out = []
+    shapes = [
+        ("t2", "n25000000", "g25000000F", -1),                     # fallback Block + a normal one
+        ("t1", "n%d" % bs, "g%dF" % bs, -1),                       # exactly one Block
+        ("t3", "n%d" % (bs + 70000), "g%db;70000F" % bs, -1),      # FULL_BARRIER exactly at the end of the fallback Block
+        ("t2", "n30000000", "g30000000F", rng.randrange(20, 120)),  # abandoned while the fallback worker waits for the whole input
+    ]
+    for i, (t, n, g, x) in enumerate(shapes):
+        streams = ["S:%s,b%d,o%d,c%d,f1,k0,%s,d%d,s%d,x%d,z64,%s" % (t, bs, rng.choice((0, 50)), rng.choice(CHECKS), n, rng.randrange(1, 1 << 30),
+                                                                     rng.randrange(1, 1 << 30), x, g)]
+        if x >= 0:
+            streams.append("S:t2,b4096,o0,c4,f0,k1,n20000,d7,s3,x-1,g20000F")
+        line = "scn %s%d wd=900 pert=%d:%d:300 %s" % (tag, i, rng.choice((0, 1)), rng.randrange(1, 1 << 30), " ".join(streams))
+        out.append((line, dict(cat="fallback-20MiB", sched="pert", streams=[dict(threads=int(t[1:]), bs=bs, n=int(n[1:]), kind=0, acts=["F"], abort=x, flt=1)], dump=False)))
+    return out
+
+
 def run_lines_resilient(exe, lines, env=None, timeout=1500):
     """Returns one (kind, text, stderr) per line; kind in ok/FAIL/DEADLOCK/CRASH/bad-op."""
     results = [None] * len(lines)
@@ -394,9 +416,13 @@ def classify_and_report(ctx, line, info, res, variant, exe):
     m = re.search(r"code=(\S+)", text)
     if m:
         tag = m.group(1)
+    key = None
+    if tsan and re.search(r"stream_encoder_mt\.c:\d+ in stream_encoder_mt_init", err) and re.search(r"in worker_encode ", err):
+        # findings/C08-F8.md: "Basic initializations" of stream_encoder_mt_init() run before the old workers are joined
+        key = "C08:tsan-race:reinit-fields-before-join"
     ctx.violation(tag, {"kind": what, "op": line, "category": info["cat"], "harness": os.path.basename(exe), "variant": variant,
                         "result": text[:600], "stderr": err[-3500:],
-                        "how_to_replay": "./check C08 --replay <this file>   (or: echo '<op>' | %s ; controlled schedules are deterministic given the op line)" % exe}, True)
+                        "how_to_replay": "./check C08 --replay <this file>   (or: echo '<op>' | %s ; controlled schedules are deterministic given the op line)" % exe}, True, key=key)
     ctx.count("result:" + tag, table="distribution")
     return False
 
@@ -498,6 +524,10 @@ def run(ctx):
     merge(agg, a)
     tsan_info = {}
     if not quick:
+        scen_f = fallback_scenarios(ctx, "fb")
+        a, badf = run_batch(ctx, exe_p, scen_f, "asan", env, "incompressible fallback (20 MiB Blocks)")
+        merge(agg, a)
+        bad2 += badf
         okt, log, _ = vlib.c_build("tsan", targets=["liblzma"])
         if not okt:
             ctx.obligation_broken("stage B: /repo does not build (tsan)", log)
@@ -507,7 +537,7 @@ def run(ctx):
                 ctx.obligation_broken("stage B: C08 harness does not compile (tsan)", log)
             else:
                 tenv = {"TSAN_OPTIONS": "halt_on_error=1:second_deadlock_stack=1:report_signal_unsafe=0:history_size=4"}
-                scen_t = regression_scenarios(ctx, False, "rt") + gen_scenarios(ctx, 2500, False, "t")
+                scen_t = regression_scenarios(ctx, False, "rt") + gen_scenarios(ctx, 2000, False, "t")
                 a, bad3 = run_batch(ctx, texe_p, scen_t, "tsan", tenv, "ThreadSanitizer, real scheduling")
                 tsan_info = {"scenarios": len(scen_t), "not_ok": bad3}
                 merge(agg, a)
